@@ -93,7 +93,7 @@ CasesOne == CasesQ \cup CasesKinds
 CasesPairsQ == {c \in CasesA : (c.H[1] + c.H[2]) % 3 = 0} \cup {c \in CasesB : c.nin = 2 /\ c.H[1] = 3}
 \* deeper histories on fewer cases
 CasesDeep == {Case(2, 2, <<1, 131>>, <<"base", "witness">>, 1), Case(2, 2, <<3, 2>>, <<"witness", "base">>, 1),
-              Case(2, 2, <<130, 1>>, <<"forkid", "forkid">>, 1), Case(2, 1, <<129, 3>>, <<"base", "base">>, 1)}
+              Case(2, 1, <<129, 3>>, <<"forkid", "forkid">>, 1)}
 WalkCases(ws) == {[c EXCEPT !.walk = w] : c \in CasesQ, w \in ws}
 WalkCasesQ == WalkCases(1..2)
 WalkCasesT == WalkCases(1..12)
